@@ -23,8 +23,10 @@ func (ctx Ctx) declsOrError(stmt ast.Decl) (decls []coq.Decl, err error) {
 			if gooseErr, ok := r.(gooseError); ok {
 				err = gooseErr.err
 			} else {
-				// r is an error from a non-goose error, indicating a bug
-				panic(r)
+				// r is an error from a non-goose error, indicating a bug;
+				// report it as an error for this declaration rather than
+				// aborting the translation of every package
+				err = ctx.internalError(stmt, r)
 			}
 		}
 	}()
